@@ -36,10 +36,10 @@ def run(tier):
         c = by[o["id"]]
         detail = {"builtin": c["b"], "position": c["pos"], "syntax": c["syn"], "observation": {k: o[k] for k in o if k != "profile"},
                   "profile": o.get("profile")}
-        if o.get("panic") and (c["expect"] == "accepted" or o["compileErr"]):
+        if o.get("panic") and c["expect"] == "accepted":
             raise vlib.Infra("harness panic on %s: %s" % (c, o["panic"]))
         if o.get("panic"):
-            V.disagree("%s accepted and run (the engine panicked while executing it)" % c["b"], detail)
+            V.disagree("%s: the profile was %s and then crashed the validator" % (c["b"], "rejected once" if o["compileErr"] else "accepted"), detail)
             continue
         if c["expect"] == "accepted":
             # control: a harmless built-in in the same position/syntax must compile, otherwise the snippet is broken
